@@ -399,9 +399,23 @@ type Printer struct {
 	Explicit bool        // spell numbered locals/labels explicitly where LLVM allows ("%3 = ", "3:")
 }
 
+// idNum spells an unnamed value's number, with redundant leading zeros under Noise.LeadingZeros
+// (LLVM reads %01 and %1 as the same ID).
+func idNum(n int) string {
+	if noise.LeadingZeros {
+		switch n % 3 {
+		case 0:
+			return fmt.Sprintf("0%d", n)
+		case 1:
+			return fmt.Sprintf("00%d", n)
+		}
+	}
+	return fmt.Sprint(n)
+}
+
 func globalRef(name string, num int) string {
 	if name == "" {
-		return fmt.Sprintf("@%d", num)
+		return "@" + idNum(num)
 	}
 	return "@" + QuoteName(name)
 }
@@ -524,9 +538,21 @@ func QuoteStr(s string) string {
 // TextNoisy renders the module with the given spelling noise.
 func (m *Module) TextNoisy(n Noise) string {
 	noise = n
+	vecAlias, vecAliasDefs = map[string]string{}, nil
 	defer func() { noise = Noise{} }()
 	p := &Printer{Explicit: n.Explicit}
-	return p.Module(m)
+	body := p.Module(m)
+	if len(vecAliasDefs) > 0 {
+		// the aliases must be defined before their first use; scalar aliases they mention are defined
+		// by the body's own preamble, so the vector definitions go right after that preamble
+		pre := ""
+		for strings.HasPrefix(body, "source_filename") || strings.HasPrefix(body, "target ") || strings.HasPrefix(body, "%$al") || strings.HasPrefix(body, `%"$al`) {
+			i := strings.IndexByte(body, '\n') + 1
+			pre, body = pre+body[:i], body[i:]
+		}
+		return pre + strings.Join(vecAliasDefs, "\n") + "\n" + body
+	}
+	return body
 }
 
 func (p *Printer) comment() {
@@ -712,7 +738,7 @@ func (p *Printer) alias(a *Alias) {
 
 func (p *Printer) local(x any, name string) string {
 	if name == "" {
-		return fmt.Sprintf("%%%d", p.nums[x])
+		return "%" + idNum(p.nums[x])
 	}
 	return "%" + QuoteName(name)
 }
@@ -789,7 +815,7 @@ func (p *Printer) fn(f *Fun) {
 		if b.Name != "" {
 			p.w("%s:\n", QuoteName(b.Name))
 		} else if bi > 0 || p.Explicit {
-			p.w("%d:\n", p.nums[b])
+			p.w("%s:\n", idNum(p.nums[b]))
 		}
 		ind := "  "
 		if noise.Indent != "" {
@@ -895,7 +921,12 @@ func (p *Printer) constBody(c *Const) string {
 		for _, e := range c.Elems {
 			es = append(es, p.constTV(e))
 		}
-		return "<" + strings.Join(es, ", ") + ">"
+		body := strings.Join(es, ", ")
+		if strings.HasPrefix(body, "{") {
+			// `<{` would be lexed as the start of a packed struct
+			return "< " + body + " >"
+		}
+		return "<" + body + ">"
 	case CChars:
 		q := QuoteStr(c.Chars)
 		return "c" + q
@@ -1040,7 +1071,7 @@ func (p *Printer) inst(i *Inst) string {
 		if i.Name != "" {
 			lhs = "%" + QuoteName(i.Name) + " = "
 		} else if p.Explicit {
-			lhs = fmt.Sprintf("%%%d = ", p.nums[i])
+			lhs = "%" + idNum(p.nums[i]) + " = "
 		}
 	}
 	return lhs + p.instBody(i) + p.mdAttachments(i.MD, ", ")
